@@ -47,10 +47,10 @@ PROPS = {}
 
 PROPS["C02"] = doc_prop(
     "C02",
-    quick=[bfs("MC_C02", "C02_quick"), sim("MC_C02", "C02_sim", 400, 14)],
-    thorough=[bfs("MC_C02", "C02_thorough"), sim("MC_C02", "C02_sim", 6000, 22)],
-    sample_quick=16000, sample_thorough=None,
-    rule="cases = abstract documents enumerated by TLC (spec/gen/MC_C02, BFS to the bound, then -simulate); "
+    quick=[bfs("MC_C02", "C02_quick"), bfs("MC_C03", "C03_quick"), sim("MC_C02", "C02_sim", 400, 14)],
+    thorough=[bfs("MC_C02", "C02_thorough"), bfs("MC_C03", "C03_thorough"), sim("MC_C02", "C02_sim", 6000, 22)],
+    sample_quick=20000, sample_thorough=700000,
+    rule="cases = abstract documents enumerated by TLC (spec/gen/MC_C02 BFS to the bound, all paragraph child sequences of spec/gen/MC_C03, then -simulate); "
          "non-trivial = the real run retained some source words and dropped others",
     nontrivial_key="kept_and_dropped")
 
